@@ -212,6 +212,16 @@ collect:
 	wantLogins++ // ServiceProviderLogin
 	w.Do(vReq{Method: "POST", Path: vipAuthPath, Headers: htmlH, Cookies: ck, Form: url.Values{"OTP": {"123456"}}})
 	wantLogins += 2 // VIP Auth + WebLogin
+	// a federated login (OAuth2 provider naming "frank"; the provider's answer carries "login" and "email", as most do)
+	w.attachOAuth2()
+	if b := w.Do(vReq{Method: "GET", Path: oauth2LoginBeginPath, Headers: htmlH}); b.Cookie(redirCookieName) != nil {
+		if pu, err := url.Parse(b.Header.Get("Location")); err == nil {
+			w.Do(vReq{Method: "GET", Path: redirectPath, Headers: htmlH, Cookies: map[string]string{redirCookieName: b.Cookie(redirCookieName).Value},
+				Form: url.Values{"state": {pu.Query().Get("state")}, "code": {"code-frank"}}})
+			wantLogins++ // WebLogin of frank
+		}
+	}
+	loginUsers := map[string]bool{"alice": true, "frank": true}
 	time.Sleep(400 * time.Millisecond)
 	// now a stalled subscriber: its buffer fills, issuance must not wait for it
 	stalled := vSubscribe(addr, false)
@@ -252,6 +262,8 @@ collect:
 	fast.mu.Lock()
 	var fastIDs []int
 	gotLogins := 0
+	wrongUser := 0
+	frankSeen := false
 	late := 0
 	for i, e := range fast.evs {
 		switch e.Type {
@@ -272,6 +284,12 @@ collect:
 		default:
 			if e.Username != "flood-user" {
 				gotLogins++
+				if !loginUsers[e.Username] {
+					wrongUser++
+				}
+				if e.Username == "frank" {
+					frankSeen = true
+				}
 			}
 		}
 	}
@@ -285,6 +303,6 @@ collect:
 		missing = 0
 	}
 	ev.Emit(map[string]interface{}{"i": 0, "ev": "Stream", "responded": resp, "fast": fastIDs, "maxIssueMsWithStalledSubscriber": int(maxIssue / time.Millisecond),
-		"floodMs": floodMs, "loginsMissing": missing, "loginEvents": gotLogins, "lateEvents": late, "paths": paths, "rounds": rounds,
+		"floodMs": floodMs, "loginsMissing": missing, "loginsWrongUser": wrongUser, "federatedLoginReported": frankSeen, "loginEvents": gotLogins, "lateEvents": late, "paths": paths, "rounds": rounds,
 		"burst": burstN, "burstMismatch": burstMismatch, "unpublishedAtResponse": unpublished, "unpublishedPaths": unpublishedPaths, "publishedAtResponseChecked": tapChecked})
 }
